@@ -65,7 +65,7 @@ func RunCfg(cfg vrt.Config, prefix []int32, doc map[string]any, sql string, opts
 	// the usage differential belongs to plain sequential runs, not to explored executions
 	o.Res = vrt.Run(cfg, prefix, func() { Call(o, doc, sql, opts...) })
 	o.GPanic = o.Res.GPanic
-	if Usage != nil && !inUsage && !(cfg.Sched || cfg.MapOrder) && o.q != nil && o.Err == nil && o.Panic == "" && o.GPanic == "" {
+	if Usage != nil && !inUsage && !(cfg.Sched || cfg.MapOrder) && !usageSkip(sql) && o.q != nil && o.Err == nil && o.Panic == "" && o.GPanic == "" {
 		inUsage = true
 		usageChecks(o, doc, sql, opts)
 		inUsage = false
@@ -135,6 +135,17 @@ func sameResult(sql string, a, b []any) bool {
 	sort.Strings(x)
 	sort.Strings(y)
 	return SameSeq(x, y)
+}
+
+// usageSkip: statements that call harness functions with a state of their own (fault counters,
+// invocation counters) or write variables do not return the same when they are executed again.
+func usageSkip(sql string) bool {
+	for _, w := range []string{"FAULT", "HONCE", "SETVAR", "HPOKE", "HPEEK", "RAISE", "REPORT"} {
+		if strings.Contains(sql, w) {
+			return true
+		}
+	}
+	return false
 }
 
 func scribble(rows []any) {
